@@ -5,6 +5,7 @@ namespace OpcuaVerif.C31
 
 structure DState where
   g : Graph
+  limit : Nat := 10
 
 /-- ids: 1..30 nodes (namespace 1), 31..999 namespace-0 numeric ids, ≥ 1000 namespace-1 numeric ids
 (custom reference types), 9999 a namespace-0 id that is no reference type -/
@@ -22,6 +23,7 @@ def showStatus : Status → String
   | .badNothingToDo => "BadNothingToDo"
   | .badBrowseNameInvalid => "BadBrowseNameInvalid"
   | .badNoMatch => "BadNoMatch"
+  | .badTooManyOperations => "BadTooManyOperations"
 
 /-- `ty:inv:sub:name` -/
 def parseElem (s : String) : Option Elem :=
@@ -98,6 +100,7 @@ def trTags (g : Graph) (start : Nat) (es : List Elem) (res : Except Status (List
   let st := match res with
     | .ok _ => "t.good" | .error .badNodeIdUnknown => "t.nodeunknown" | .error .badNothingToDo => "t.nothingtodo-empty"
     | .error .badBrowseNameInvalid => "t.browsenameinvalid" | .error .badNoMatch => "t.nomatch" | .error .good => "t.good"
+    | .error .badTooManyOperations => "t.toomany"
   let len := if es.length = 0 then "len.0" else if es.length = 1 then "len.1" else if es.length = 2 then "len.2"
     else if es.length = 3 then "len.3" else "len.4+"
   dedupStr ([st, len] ++ (if (nodeName? g.nodes start).isSome then walkTags g es [start] 0 else []))
@@ -107,14 +110,37 @@ def withTags (res : String) (tags : List String) : String :=
 
 def dstep (s : DState) (toks : List String) : DState × String :=
   match toks with
-  | ["reset"] => ({ g := ⟨[], []⟩ }, "ok")
+  | ["reset"] => ({ g := ⟨[], []⟩, limit := 10 }, "ok")
+  | ["limit", l] =>
+    -- operational limit max_nodes_per_translate_browse_paths_to_node_ids (10 after reset)
+    match l.toNat? with
+    | some l => if l < 4294967296 then ({ s with limit := l }, "ok") else (s, "bad-op")
+    | none => (s, "bad-op")
+  | ["trn", k, start, es] =>
+    -- one request with k copies of the same browse path
+    match k.toNat?, start.toNat? with
+    | some k, some start =>
+      if k > 40 ∨ start ≥ 4294967296 then (s, "bad-op") else
+      let es? : Option (Option (List Elem)) := if es = "-" then some none else (parseElems es).map some
+      match es? with
+      | none => (s, "bad-op")
+      | some es =>
+        let szTag := if k = 0 then "req.empty" else if k < s.limit then "req.lt-limit" else if k = s.limit then "req.eq-limit" else "req.gt-limit"
+        match translateRequest s.limit s.g (List.replicate k (start, es)) with
+        | .fault st => (s, s!"err {showStatus st} @@ {szTag}")
+        | .results rs =>
+          let shown := rs.map fun r => match r with
+            | .ok ns => "Good " ++ natList (sortNat ns)
+            | .error st => showStatus st
+          (s, s!"ok x{k} " ++ (shown.head?.getD "") ++ s!" @@ {szTag}")
+    | _, _ => (s, "bad-op")
   | ["node", id, nm] =>
     match id.toNat?, nm.toNat? with
     | some id, some nm =>
       if id = 0 ∨ id > 30 ∨ nm = 0 ∨ nm ≥ 100 then (s, "bad-op") else
       match nodeName? s.g.nodes id with
       | some _ => (s, "ok 0")
-      | none => ({ g := { s.g with nodes := s.g.nodes ++ [(id, nm)] } }, "ok 1")
+      | none => ({ s with g := { s.g with nodes := s.g.nodes ++ [(id, nm)] } }, "ok 1")
     | _, _ => (s, "bad-op")
   | ["ref", a, b, ty] =>
     match a.toNat?, b.toNat?, ty.toNat? with
@@ -122,12 +148,13 @@ def dstep (s : DState) (toks : List String) : DState × String :=
       -- no self references (they panic: C33); HasSubtype edges only upwards in id order (acyclic)
       if !idOk a ∨ !idOk b ∨ !idOk ty ∨ a = b ∨ (ty = hasSubtype ∧ b ≤ a) then (s, "bad-op") else
       if s.g.refs.contains (a, ty, b) then (s, "ok") else
-      ({ g := { s.g with refs := s.g.refs ++ [(a, ty, b)] } }, "ok")
+      ({ s with g := { s.g with refs := s.g.refs ++ [(a, ty, b)] } }, "ok")
     | _, _, _ => (s, "bad-op")
   | ["tr", start, es] =>
     match start.toNat? with
     | some start =>
       if start ≥ 4294967296 then (s, "bad-op") else
+      if s.limit = 0 then (s, "err BadTooManyOperations @@ req.gt-limit") else
       if es = "-" then
         -- no elements array at all: the service answers BadNothingToDo without looking at the node
         (s, "ok BadNothingToDo @@ t.nothingtodo-noelems")
